@@ -121,6 +121,11 @@ def r1b_acceptance_depends_on_the_want_only(ctx):
             if isinstance(a0, ast.Name):
                 ds = rr.rd.at(cn, a0.id)
                 src = ds[0].value if len(ds) == 1 and isinstance(ds[0].value, ast.AST) else None
+            if isinstance(src, ast.Subscript) and isinstance(src.value, ast.Name):
+                # the list of lines held in a local first
+                ds = rr.rd.at(cn, src.value.id)
+                if len(ds) == 1 and isinstance(ds[0].value, ast.Call):
+                    src = ast.copy_location(ast.Subscript(value=ds[0].value, slice=src.slice, ctx=ast.Load()), src)
             need(isinstance(src, ast.Subscript) and isinstance(src.value, ast.Call) and ast.unparse(src.value.func).endswith('format_exception_only'),
                  'C03.R1b: the raised text handed to check_exception is not an item of traceback.format_exception_only(...)')
             idx = src.slice
